@@ -6,6 +6,7 @@ package main
 // copies of /repo outside /repo and /verif, removed afterwards.
 
 import (
+	"encoding/json"
 	"fmt"
 	"os"
 	"os/exec"
@@ -33,6 +34,7 @@ func cmdSelftest(args []string) int {
 		mustFail bool
 	}
 	var cases []tc
+	knownMiss := map[string]bool{}
 	for _, kind := range []string{"mutants", "equivalents"} {
 		files, _ := filepath.Glob(filepath.Join(verifDir(), "selftest", kind, "*.patch"))
 		sort.Strings(files)
@@ -54,7 +56,18 @@ func cmdSelftest(args []string) int {
 		if filter != "" && !strings.Contains("seeded/"+name, filter) {
 			continue
 		}
-		cases = append(cases, tc{f, prop, true})
+		// a seed recorded as not detected (outside the claim) is not expected to fail
+		expect := true
+		if mb, err := os.ReadFile(filepath.Join(filepath.Dir(f), "meta.json")); err == nil {
+			var meta struct {
+				Detected *bool `json:"detected"`
+			}
+			if json.Unmarshal(mb, &meta) == nil && meta.Detected != nil && !*meta.Detected {
+				expect = false
+				knownMiss[f] = true
+			}
+		}
+		cases = append(cases, tc{f, prop, expect})
 	}
 	self, _ := os.Executable()
 	bad := 0
@@ -109,6 +122,12 @@ func cmdSelftest(args []string) int {
 					label = "seeded/" + filepath.Base(filepath.Dir(c.patch))
 				}
 				fmt.Printf("ok   must-fail %-55s %s\n", label, first)
+			case !c.mustFail && knownMiss[c.patch]:
+				if code == 1 && viol {
+					fmt.Printf("note recorded miss is now detected: %s\n", c.patch)
+				} else {
+					fmt.Printf("miss (recorded, outside the claim) seeded/%s\n", filepath.Base(filepath.Dir(c.patch)))
+				}
 			case !c.mustFail && code == 0 && !viol:
 				fmt.Printf("ok   must-pass %s\n", filepath.Base(c.patch))
 			default:
